@@ -123,10 +123,28 @@ def r2(ctx):
     ex = Explorer(f, atom_of=atom_of)
     outs = ex.run(g.entry, {TO: 0}, watch={n.id: "kill" for c in kills for n in nodes_with(f, c)})
     ctx.check("C11.R2", all("kill" not in o.events for o in outs) and all(loop not in o.path for o in outs), key(f, "timeout-0-disables"), site(f), "with timeout 0 (disabled) workers are still scanned/killed", "timeout 0 disables the scan")
-    # a stat error skips the worker
-    trs = [t for t in walk_own(f.node) if isinstance(t, ast.Try) and any("last_update" in norm(s) for s in t.body)]
-    okk = bool(trs) and any(h.body and isinstance(h.body[-1], ast.Continue) and h.type is not None and "OSError" in norm(h.type) for t in trs for h in t.handlers)
-    ctx.check("C11.R2", okk, key(f, "stat-error-skips"), site(f), "an error reading the heartbeat is not tolerated (worker just exited): the master loop would crash", "OSError -> continue")
+    # a stat error skips the worker: when last_update() raises OSError the iteration ends without a signal and the
+    # scan goes on (evaluated: the state in which the read is reached, continued from the clause that catches OSError)
+    lu = [n for c in method_calls(f, "last_update") for n in nodes_with(f, c)]
+    ctx.need(lu, "C11.R2: murder_workers never reads the heartbeat")
+    okk = True
+    why = ""
+    for L in lu:
+        hs = [b for b, l in L.out if l == "exc" and b.kind == "handler" and (b.ast.type is None or any(x in norm(b.ast.type) for x in ("OSError", "Exception", "EnvironmentError", "IOError")))]
+        if not hs:
+            okk, why = False, "no clause catches OSError from last_update()"
+            break
+        ex = Explorer(f, atom_of=atom_of, tracked=["ABORTED"])
+        pre = ex.run(loop, {TO: 30, "ABORTED": False}, stop=lambda n: n is L, start_label="true")
+        for o in pre:
+            if o.kind != "stop":
+                continue
+            ex2 = Explorer(f, atom_of=atom_of, tracked=["ABORTED"])
+            outs = ex2.run(hs[0], dict(o.env), stop=lambda n: n is loop, watch={n.id: "kill" for c in kills for n in nodes_with(f, c)})
+            for o2 in outs:
+                if o2.kind != "stop" or "kill" in o2.events:
+                    okk, why = False, "after the error the iteration %s" % ("sends a signal" if "kill" in o2.events else "ends in %s" % o2.kind)
+    ctx.check("C11.R2", okk, key(f, "stat-error-skips"), site(f), "an error reading the heartbeat is not tolerated (worker just exited): %s" % (why or "the master loop would crash"), "OSError -> next worker")
     # `aborted` starts False and is reset nowhere else
     fw = repo.func("gunicorn.workers.base.Worker.__init__")
     ctx.check("C11.R2", any(isinstance(x, ast.Assign) and any(tail(t) == "aborted" for t in x.targets) and const(x.value, NO) is False for x in walk_own(fw.node)), key(fw, "aborted-init"), site(fw),
